@@ -7,6 +7,8 @@ import RbpfModel.Model.Isa
 import RbpfModel.Model.Taint
 import RbpfModel.Model.EngineSem
 import RbpfModel.Model.Vm
+import RbpfModel.Model.JitEmit
+import RbpfModel.Model.ClifCompile
 namespace Rbpf.Drive
 open Rbpf.Hex
 
@@ -130,6 +132,18 @@ def handleExec (toks : List String) : String :=
   | none => "bad-op"
   | some c =>
     let prog := applyPatches c
+    if (look (kvOf toks) "anyprog").isSome then
+      -- compile-only cases on arbitrary byte strings (accept-all verifier): the compile models alone
+      let hfn : List Nat := ((look (kvOf toks) "hfn").getD "").splitOn "," |>.filterMap parseNat?
+      let haddr (k : Nat) : Option Nat := (c.helpers.find? (·.1 == k)).bind fun e => hfn[e.2 % 4]?
+      let jc := match JitEmit.compile prog haddr true false with
+        | .ok code => s!"{code.size}.{u64Hex (code.foldl (fun (h : UInt64) (b : UInt8) => (h ^^^ b.toUInt64) * 0x100000001b3) 0xcbf29ce484222325)}"
+        | .error .err => "err" | .error .panic => "panic"
+      let cs := match ClifCompile.compile prog (fun k => (c.helpers.find? (·.1 == k)).isSome) with
+        | .ok => "compiled" | .err => "compile-err" | .panic => "compile-panic"
+      let js := match JitEmit.compile prog haddr true false with | .ok _ => "compiled" | .error .err => "compile-err" | .error .panic => "compile-panic"
+      s!"noexec | claim=out | jitsem={js} | clifsem={cs} | jitcodesem={jc}"
+    else
     match Verifier.check prog with
     | .ok =>
       let env := mkEnv c prog
@@ -165,9 +179,17 @@ def handleExec (toks : List String) : String :=
               | .panic => "panic" | .fault => "fault" | .timeout _ => "timeout")
             | false => "compiled"
         let m0 := Interp.init (mkMem c)
+        -- byte-exact emitter model: length and digest of the machine code (helper addresses as echoed by the harness)
+        let hfn : List Nat := ((look (kvOf toks) "hfn").getD "").splitOn "," |>.filterMap parseNat?
+        let haddr (k : Nat) : Option Nat := (c.helpers.find? (·.1 == k)).bind fun e => hfn[e.2 % 4]?
+        let (um, ud) := if c.kind == "mbuff" then (true, false) else if c.kind == "fixed" then (true, true) else (false, false)
+        let jitcode := match JitEmit.compile prog haddr um ud with
+          | .ok code => s!"{code.size}.{u64Hex (code.foldl (fun (h : UInt64) (b : UInt8) => (h ^^^ b.toUInt64) * 0x100000001b3) 0xcbf29ce484222325)}"
+          | .error .err => "err"
+          | .error .panic => "panic"
         render r ++ " | claim=" ++ claim ++ (if tags.isEmpty then "" else " | tags=" ++ ",".intercalate tags) ++
           " | jitsem=" ++ eng "jit" (EngineSem.jitCompile env) (fun _ => EngineSem.jitRun env m0 c.budget) ++
-          " | clifsem=" ++ eng "clif" (EngineSem.clifCompile env) (fun _ => EngineSem.clifRun env m0 c.budget)
+          " | clifsem=" ++ eng "clif" (EngineSem.clifCompile env) (fun _ => EngineSem.clifRun env m0 c.budget) ++ " | jitcodesem=" ++ jitcode
       else
       let m := render (Interp.run env (Interp.init (mkMem c)) c.budget)
       if (look (kvOf toks) "spec") == some "isa" then
